@@ -63,6 +63,131 @@ type diag struct {
 	p    *Prog
 	a, b types.Object
 	defs map[types.Object]ast.Expr
+	rel  map[string]int // assumed outcome per sort key: -1 first element smaller, 0 equal, +1 greater
+	keys []string       // sort keys met while evaluating (in order of first use)
+}
+
+// sideOf: which element an expression reads (1 first, 2 second, 3 both, 0 neither), through definitions.
+func (d *diag) sideOf(e ast.Expr) int {
+	side := 0
+	seen := map[types.Object]bool{}
+	var walk func(e ast.Node)
+	walk = func(e ast.Node) {
+		ast.Inspect(e, func(n ast.Node) bool {
+			id, ok := n.(*ast.Ident)
+			if !ok {
+				return true
+			}
+			o := d.p.ObjOf(id)
+			if o == nil {
+				return true
+			}
+			if o == d.a {
+				side |= 1
+			} else if o == d.b {
+				side |= 2
+			} else if def, ok := d.defs[o]; ok && def != nil && !seen[o] {
+				seen[o] = true
+				walk(def)
+			}
+			return true
+		})
+	}
+	if e != nil {
+		walk(e)
+	}
+	return side
+}
+
+// relOf returns the assumed relation of a sort key (first element vs second) and remembers the key.
+func (d *diag) relOf(key string) int {
+	if d.rel == nil {
+		d.rel = map[string]int{}
+	}
+	if _, ok := d.rel[key]; !ok {
+		d.rel[key] = 0
+		d.keys = append(d.keys, key)
+	}
+	return d.rel[key]
+}
+
+// keyRel: X and Y are the same key expression read from the two different elements; returns the
+// relation of X to Y under the current assumption.
+func (d *diag) keyRel(x, y ast.Expr) (int, bool) {
+	if d.norm(x) != d.norm(y) {
+		return 0, false
+	}
+	sx, sy := d.sideOf(x), d.sideOf(y)
+	if !((sx == 1 && sy == 2) || (sx == 2 && sy == 1)) {
+		return 0, false
+	}
+	r := d.relOf(d.norm(x))
+	if sx == 2 {
+		r = -r
+	}
+	return r, true
+}
+
+// callSign: sign of a three-way comparison function applied to the two elements.
+func (d *diag) callSign(e ast.Expr) (int, bool) {
+	e = unparen(e)
+	if id, ok := e.(*ast.Ident); ok {
+		if def, ok := d.defs[d.p.ObjOf(id)]; ok && def != nil {
+			return d.callSign(def)
+		}
+		return 0, false
+	}
+	call, ok := e.(*ast.CallExpr)
+	if !ok {
+		return 0, false
+	}
+	k, ok := diagZeroFuncs[d.p.CalleeName(call)]
+	if !ok || len(call.Args) < 2*k {
+		return 0, false
+	}
+	key := d.p.CalleeName(call) + ":"
+	s1, s2 := 0, 0
+	for i := 0; i < k; i++ {
+		if d.norm(call.Args[i]) != d.norm(call.Args[k+i]) {
+			return 0, false
+		}
+		key += d.norm(call.Args[i]) + ","
+		s1 |= d.sideOf(call.Args[i])
+		s2 |= d.sideOf(call.Args[k+i])
+	}
+	if s1 == s2 {
+		return 0, true // both halves read the same element
+	}
+	if !((s1 == 1 && s2 == 2) || (s1 == 2 && s2 == 1)) {
+		return 0, false
+	}
+	r := d.relOf(key)
+	if s1 == 2 {
+		r = -r
+	}
+	return r, true
+}
+
+func relHolds(op token.Token, r int) int {
+	ok := false
+	switch op {
+	case token.EQL:
+		ok = r == 0
+	case token.NEQ:
+		ok = r != 0
+	case token.LSS:
+		ok = r < 0
+	case token.LEQ:
+		ok = r <= 0
+	case token.GTR:
+		ok = r > 0
+	case token.GEQ:
+		ok = r >= 0
+	}
+	if ok {
+		return triT
+	}
+	return triF
 }
 
 // norm renders e with both element selectors replaced by the same symbol and locals replaced by
@@ -188,11 +313,17 @@ func (d *diag) eval(e ast.Expr) int {
 			}
 			return triU
 		case token.EQL, token.NEQ, token.LSS, token.GTR, token.LEQ, token.GEQ:
-			same := d.norm(x.X) == d.norm(x.Y)
-			// comp <op> 0 with comp known to be 0 on the diagonal
-			if v, isC := d.p.ConstInt(x.Y); isC && v == 0 && d.intZero(x.X) {
-				same = true
+			// the same key read from the two elements: use the assumed outcome
+			if r, ok := d.keyRel(x.X, x.Y); ok {
+				return relHolds(x.Op, r)
 			}
+			// three-way comparison result against 0
+			if v, isC := d.p.ConstInt(x.Y); isC && v == 0 {
+				if r, ok := d.callSign(x.X); ok {
+					return relHolds(x.Op, r)
+				}
+			}
+			same := d.norm(x.X) == d.norm(x.Y) && d.sideOf(x.X) == d.sideOf(x.Y)
 			if !same {
 				return triU
 			}
@@ -206,11 +337,19 @@ func (d *diag) eval(e ast.Expr) int {
 	case *ast.CallExpr:
 		if sel, ok := unparen(x.Fun).(*ast.SelectorExpr); ok && len(x.Args) == 1 {
 			if _, isPkg := d.p.ObjOf(identOf(sel.X)).(*types.PkgName); !isPkg && d.norm(sel.X) == d.norm(x.Args[0]) {
-				switch d.p.CalleeName(x) {
-				case "time.Time.Before", "time.Time.After":
-					return triF
-				case "time.Time.Equal":
-					return triT
+				r, ok := d.keyRel(sel.X, x.Args[0])
+				if !ok && d.sideOf(sel.X) == d.sideOf(x.Args[0]) {
+					r, ok = 0, true
+				}
+				if ok {
+					switch d.p.CalleeName(x) {
+					case "time.Time.Before":
+						return relHolds(token.LSS, r)
+					case "time.Time.After":
+						return relHolds(token.GTR, r)
+					case "time.Time.Equal":
+						return relHolds(token.EQL, r)
+					}
 				}
 			}
 		}
@@ -218,13 +357,17 @@ func (d *diag) eval(e ast.Expr) int {
 		case "resources.StrictlyGreaterThan":
 			// StrictlyGreaterThan(Sub(a, a), Zero) == false
 			if len(x.Args) == 2 {
-				if sub, ok := unparen(x.Args[0]).(*ast.CallExpr); ok && d.p.IsCall(sub, "resources.Sub") && len(sub.Args) == 2 {
-					if d.norm(sub.Args[0]) == d.norm(sub.Args[1]) && strings.HasSuffix(types.ExprString(x.Args[1]), "Zero") {
+				if sub, ok := unparen(x.Args[0]).(*ast.CallExpr); ok && d.p.IsCall(sub, "resources.Sub") && len(sub.Args) == 2 && strings.HasSuffix(types.ExprString(x.Args[1]), "Zero") {
+					// Sub(a, b) strictly greater than zero  <=>  a greater than b (as one key)
+					if r, ok := d.keyRel(sub.Args[0], sub.Args[1]); ok {
+						return relHolds(token.GTR, r)
+					}
+					if d.norm(sub.Args[0]) == d.norm(sub.Args[1]) && d.sideOf(sub.Args[0]) == d.sideOf(sub.Args[1]) {
 						return triF
 					}
 				}
-				if d.norm(x.Args[0]) == d.norm(x.Args[1]) {
-					return triF
+				if r, ok := d.keyRel(x.Args[0], x.Args[1]); ok {
+					return relHolds(token.GTR, r)
 				}
 			}
 		}
@@ -344,34 +487,103 @@ func rulesC19(c *Ctx) {
 	c.Floor("C19.a", "less functions passed to sort.Slice*", len(sites), 12)
 
 	// ---- C19.b irreflexivity on the diagonal
-	c.Rule("C19.b", "comparators of sibling queues, applications and nodes return false when both elements are the same (strict ordering; evaluated symbolically on the diagonal with the listed axioms): `<=`-style comparators make the result depend on the input order")
+	c.Rule("C19.b", "comparators of sibling queues, applications and nodes are strict: the body is evaluated over EVERY combination of outcomes (<, =, >) of the sort keys it compares (a finite set: the comparator touches its elements only through comparisons); less(a,a) is false and less(a,b), less(b,a) are never both true; a comparison the evaluator does not understand is reported, never assumed")
 	inScope := map[string]bool{
 		"objects.sortQueuesByPriority": true, "objects.sortQueuesByPriorityAndFairness": true, "objects.sortQueuesByFairnessAndPriority": true,
 		"objects.sortApplicationsByFairnessAndPriority": true, "objects.sortApplicationsByPriorityAndFairness": true,
 		"objects.sortApplicationsBySubmissionTimeAndPriority": true, "objects.sortApplicationsByPriorityAndSubmissionTime": true,
 	}
 	nDiag := 0
-	check := func(name string, at ast.Node, a, b types.Object, body *ast.BlockStmt) {
-		nDiag++
-		d := &diag{p: p, a: a, b: b, defs: map[types.Object]ast.Expr{}}
+	// evalUnder runs the comparator under one assumed outcome per sort key; returns T/F/U and the keys met
+	evalUnder := func(a, b types.Object, body *ast.BlockStmt, rel map[string]int) (int, []string, string) {
+		d := &diag{p: p, a: a, b: b, defs: map[types.Object]ast.Expr{}, rel: map[string]int{}}
+		for k, v := range rel {
+			d.rel[k] = v
+			d.keys = append(d.keys, k)
+		}
 		var res []int
 		var where []ast.Node
 		fell := d.run(body.List, &res, &where)
-		ok, msg := true, ""
 		if fell {
-			ok, msg = false, "control can reach the end of the comparator without a decision"
+			return triU, d.keys, "control can reach the end of the comparator without a decision"
 		}
+		out, msg := triF, ""
 		for i, r := range res {
-			switch r {
-			case triT:
-				ok, msg = false, "returns true for two equal elements at "+p.Pos(where[i])+" (not a strict ordering)"
-			case triU:
-				if ok {
-					ok, msg = false, "cannot decide the result for two equal elements at "+p.Pos(where[i])+" (unknown comparison; add an axiom with a reason if it is a strict one)"
-				}
+			if r == triU {
+				return triU, d.keys, "unknown comparison at " + p.Pos(where[i])
+			}
+			if r == triT {
+				out, msg = triT, p.Pos(where[i])
 			}
 		}
-		c.Check("C19.b", "irreflexive: "+name, at, ok, "%s", msg)
+		return out, d.keys, msg
+	}
+	check := func(name string, at ast.Node, a, b types.Object, body *ast.BlockStmt) {
+		nDiag++
+		// discover the sort keys: start with none (all equal), add keys as they are met
+		keys := []string{}
+		known := map[string]bool{}
+		for iter := 0; iter < 6; iter++ {
+			grew := false
+			n := 1
+			for range keys {
+				n *= 3
+			}
+			for code := 0; code < n; code++ {
+				rel := map[string]int{}
+				cc := code
+				for _, k := range keys {
+					rel[k] = cc%3 - 1
+					cc /= 3
+				}
+				_, met, _ := evalUnder(a, b, body, rel)
+				for _, k := range met {
+					if !known[k] {
+						known[k] = true
+						keys = append(keys, k)
+						grew = true
+					}
+				}
+			}
+			if !grew || len(keys) > 5 {
+				break
+			}
+		}
+		okIrr, okAsym, okDec := true, true, true
+		msg := ""
+		n := 1
+		for range keys {
+			n *= 3
+		}
+		for code := 0; code < n; code++ {
+			rel, neg := map[string]int{}, map[string]int{}
+			cc := code
+			allEq := true
+			desc := ""
+			for _, k := range keys {
+				v := cc%3 - 1
+				cc /= 3
+				rel[k], neg[k] = v, -v
+				if v != 0 {
+					allEq = false
+				}
+				desc += map[int]string{-1: "<", 0: "=", 1: ">"}[v]
+			}
+			x, _, wx := evalUnder(a, b, body, rel)
+			y, _, _ := evalUnder(a, b, body, neg)
+			if x == triU {
+				okDec, msg = false, "cannot decide the result ("+wx+") for key outcomes "+desc+" over keys "+strings.Join(keys, " | ")
+				break
+			}
+			if allEq && x == triT {
+				okIrr, msg = false, "returns true for two equal elements (at "+wx+"): not a strict ordering"
+			}
+			if x == triT && y == triT {
+				okAsym, msg = false, "less(a,b) and less(b,a) are both true when the key outcomes are "+desc+" over keys "+strings.Join(keys, " | ")+": not a strict weak ordering, the result depends on the input order"
+			}
+		}
+		c.Check("C19.b", "irreflexive: "+name, at, okIrr && okDec, "%s", msg)
+		c.Check("C19.b", "asymmetric: "+name, at, okAsym && okDec, "%s", msg)
 	}
 	for _, s := range sites {
 		if inScope[s.Name] {
